@@ -75,7 +75,7 @@ def one_case(kind, case, worker, with_tests):
             rc, keys, out = run_check(case["prop"], scratch, worker)
             exp = case["expect"]
             hit = [k for k in keys if exp in k]
-            if "extract:" in " ".join(keys):
+            if "extract:" in " ".join(keys) and "extract:" not in exp:
                 res.update(ok=False, why="mutant does not compile:\n" + out[-800:])
             elif not hit:
                 res.update(ok=False, why="expected a violation key containing %r, got %r" % (exp, keys))
